@@ -13,6 +13,7 @@ from fv.corpus import CORPUS
 SEEDS = [0, 1, 2, 3, 4, 5, 17, 42]
 DEVIATIONS = [("stretch-x", 3), ("stretch-x", 5), ("stretch-y", 2), ("mirror-x",), ("lower-out", 4), ("hint-grid",),
               ("no-solution",)] + [("push", i, k) for i in range(4) for k in (10, 25)]
+SWAPS = [("swap", i, j) for i in range(5) for j in range(i + 1, 5)]
 
 
 def run_cli(src_path, seed=0, cwd=None, budget=0, history=(), noopt=False):
@@ -35,7 +36,7 @@ class C19(core.Check):
     level = "model_checking"
     timeout = 900
     rule = ("every program of a 16-program corpus x {8 hash seeds in fresh interpreters, 3 working directories, 3 solver "
-            "budgets mapped to deterministic time, every layout answer of the deviation menu (bound 1) and injected relay "
+            "budgets mapped to deterministic time, every layout answer of the deviation menu (bound 1; incl. all exchanges of two of the first five combinators) and injected relay "
             "failures, every compile history 'Q then P' of length 2 in one process}; the canonical logical circuit (entity "
             "configurations + partition of connectors into networks, poles contracted, numbering/positions erased, "
             "canonicalised by colour refinement) must equal the baseline (seed 0, default answer, fresh process); "
@@ -113,7 +114,8 @@ class C19(core.Check):
                     cmp(tag, {"digest": d, "form": form})
                 local("in-process")
                 if g == "deviations":
-                    devs = DEVIATIONS if tier == "quick" else DEVIATIONS + [("stretch-x", 9), ("push", 5, 40), ("push", 6, 10)]
+                    devs = DEVIATIONS + SWAPS if tier == "quick" else DEVIATIONS + SWAPS + [("stretch-x", 9), ("push", 5, 40), ("push", 6, 10)] + \
+                        [("swap", i, j) for i in range(8) for j in range(max(i + 1, 5), 8)]
                     for dv in devs:
                         local(f"deviation={dv}", deviation=dv)
                     if tier == "thorough":
